@@ -40,10 +40,10 @@ type pfAct struct {
 }
 
 type pfProg struct {
-	Sc      Scenario   `json:"scenario"`
-	Shape   []pfShape  `json:"shape"`
-	Suspend int        `json:"suspend"` // user suspended by root before the act phases (-1 none)
-	Phases  [][]pfAct  `json:"phases"`
+	Sc      Scenario  `json:"scenario"`
+	Shape   []pfShape `json:"shape"`
+	Suspend int       `json:"suspend"` // user suspended by root before the act phases (-1 none)
+	Phases  [][]pfAct `json:"phases"`
 }
 
 var pfModes = []string{"JRWPS", "JR", "JW", "JRP", "JWP", "RWP", "N", "JRWP", "JP", "J"}
